@@ -156,6 +156,12 @@ def run_case(rec, k):
                     return "mismatch", f"Vector.to('cm') of a {lu} Vector did not raise"
                 res, want = v.to("cm"), [a.to("cm") for a in cs]
             elif op == "norm":
+                if c["nl"] == 1 and k % 2 == 0:
+                    # one component: the norm is |x|, also where x*x leaves the range of the component's dtype
+                    big = V(np.array([3e20, -4e25], dtype=np.float32), unit=UNITSTR[lu])
+                    rb = big.norm
+                    if not np.allclose(np.asarray(rb.values, dtype=float), [3e20, 4e25], rtol=1e-6):
+                        return "mismatch", f"norm of the 1-component float32 Vector [3e20, -4e25]: {rb.values}"
                 res = v.norm
                 sq = [sum(vvals[i][j] ** 2 for i in range(c["nl"])) for j in range(2)]
                 if not isinstance(res, osyris.Array) or sparse_of_pint(res.unit) != SPARSE[lu]:
